@@ -11,7 +11,9 @@ claim('C09', 'model_checking',
       'heap of <=3/4 entries, which extends the claim to histories of any length within that heap size. Items are '
       'handed over as equal-but-not-identical objects. The real Process._shutdown drain with exit actions that add, '
       'move or remove actions while it runs; Ppar streams with symbolic child durations (one stream, two alive at '
-      'once, an abandoned one, the same Ppar twice inside another): every child event exactly once at its own time.',
+      'once, an abandoned one, the same Ppar twice inside another): every child event exactly once at its own time. '
+      'The tick of the scheduler AppClock runs on (recursive and non-recursive): 2..3 tasks with symbolic times '
+      'expiring in one tick wake once each in (time, scheduling order) order.',
       _TB + '; heapq and list comparison are executed, not modelled.',
       'symbolic execution of the real class (concolic z3 proxies) + per-path SMT validity; inductive step over the '
       'representation invariant', 'DESIGN.md 3/C09')
@@ -25,7 +27,8 @@ claim('C16', 'model_checking',
       'arbitrary cursor over the whole 26-bit window decided by z3, plus z3 lemmas giving pairwise distinctness over '
       'a full window. Server level: for small option values (audio/control buses, buffers, in/out channels, reserved '
       'counts, max_logins 1..3, every client id) every index a Server hands out until exhaustion lies inside the '
-      'server\'s range for that resource, ranges of different client ids are disjoint and each client gets its share. '
+      'server\'s range for that resource, ranges of different client ids are disjoint and each client gets its share, '
+      'also when the running server reports another number of logins than the client\'s option. '
       'Object level: every history of 4..5 operations (new, free of any object made so far -- also one already '
       'freed) on Buffer, AudioBus and ControlBus objects: no new object gets an index a live one owns.',
       _TB + '; the block-allocator part is finite-domain: the decision tree enumerates it completely and the solver '
